@@ -418,7 +418,7 @@ Definition latest_timestamp_file (c : config) (w : world) (rotate : bool) (fmt :
   if rotate then (Ok (wnow w), w) else
   with_listing w (fun w' =>
     let fixed := fixed_of c w' in
-    match filter_files (woff w') (fsfx (c_spec c)) fixed (related_files (wfs w') (fsfx (c_spec c)) fixed) IFNum (fsfx (c_spec c)) with
+    match filter_files (woff w') (fsfx (c_spec c)) fixed (related_files (wfs w') (fsfx (c_spec c)) fixed) (IFTs fmt) (fsfx (c_spec c)) with
     | None => None
     | Some files =>
       match map_opt (ts_infix_from_name (c_spec c) fixed) files with
